@@ -31,7 +31,7 @@ UNIT = {"CC": ("[<]CC[>]", "CC"), "CO": ("[<]CO[>]", "CO"), "CS": ("[<]CS[>]", "
         # a side group that looks like the beginning of the next unit (a second, dead-end placement at the growing end)
         "CEt": ("[<]C(CC)(N)C[>]", "C(CC)(N)C"),
         # explicit weights on the growing-end descriptor / a weight other than 1 (hand-over between adjacent blocks)
-        "CNw": ("[<|2|]C(N)C[>]", "C(N)C"), "COw": ("[<]C(=O)C[>|3|]", "C(=O)C")}
+        "CNw": ("[<]C(N)C[>|2|]", "C(N)C"), "COw": ("[<]C(=O)C[>|3|]", "C(=O)C")}
 
 
 def instances(tier):
